@@ -4313,7 +4313,17 @@ class ParameterizedMetaclass(type):
                 dinfo = getattr(method, '_dinfo', {'watch': False})
                 if (not any(dep[0] == w[0] for w in _watch+_inherited)
                     and dinfo.get('watch')):
-                    _inherited.append(dep)
+                    # Resolve the dependencies of the method this class
+                    # actually inherits (per its MRO) against this class:
+                    # the entry stored on a base may belong to another
+                    # override (multiple inheritance) or name helper
+                    # methods that this class overrides.
+                    minfo = MInfo(cls=mcs, inst=None, name=dep[0],
+                                  method=method)
+                    deps, dynamic_deps = _params_depended_on(minfo, dynamic=False)
+                    _inherited.append((dep[0], dinfo['watch'] == 'queued',
+                                       dinfo.get('on_init', False), deps,
+                                       dynamic_deps))
 
         mcs.param._depends = {'watch': _inherited+_watch}
 
